@@ -161,7 +161,9 @@ def run(rep: core.Report):
     rep.rule("R11g", "dispatch tables (i, ci) -> closed form and the case split on omega agree between C and Python", 40)
     rep.rule("R11i", "every integration weight the TetrahedronMesh iterator stores comes from TetrahedronMethod.run(frequency points, selector) on every path (no data-dependent shortcut)", 2)
     rep.rule("R11h", "epsilon guards return 0 only for |delta| < THM_EPSILON / n < THM_EPSILON, and THM_EPSILON is defined for every CMake target that compiles the file", 14)
+    rep.rule("R11j", "small helpers by element-wise symbolic execution: the relative-grid-address getters copy every one of the 24x4x3 (x4) table entries to the same position, the matrix-vector product and the squared norm are the documented sums, the vertex frequencies of tetrahedron i are copied in order, each case adds IJ * gn", 6)
     rep.assume("vertex frequencies pairwise distinct (generic branch of _f); omega, v0..v3 real")
+    _r11j(rep)
 
     C = CSide()
     P = PySide()
@@ -749,6 +751,51 @@ def _r11h(rep, C: CSide):
                  "a build variant compiles tetrahedron_method.c without THM_EPSILON=1e-10: the C kernel then divides by zero for degenerate vertices where the other variant returns 0")
 
 
+def _r11j(rep):
+    import sympy as sp
+
+    from engine import celem
+
+    tu = cast.load(CF)
+    ex = celem.ElemExec(tu, where=CF)
+    # multiply_matrix_vector_dl3: v = a b ; norm_squared_d3
+    mv = ex.function("multiply_matrix_vector_dl3")
+    af, bf = sp.Function("a"), sp.Function("b")
+    ok_mv = all(sp.expand(mv.cell("v", r) - sum(af(r, c) * bf(c) for c in range(3))) == 0 for r in range(3)) and len({str(p) for p, _, _ in mv.cells.get("v", [])}) == 3
+    rep.instance("R11j", CF, "multiply_matrix_vector_dl3", "v[r] = sum_c a[r][c] b[c] for r = 0..2", ok_mv, "the matrix-vector product used to pick the shortest main diagonal is not a.b", line=tu.line(tu.functions["multiply_matrix_vector_dl3"]))
+    ns = ex.function("norm_squared_d3")
+    rep.instance("R11j", CF, "norm_squared_d3", f"returns {ns.ret}", ns.ret is not None and sp.expand(ns.ret - sum(af(c) ** 2 for c in range(3))) == 0, "the squared length of a diagonal is not a0^2 + a1^2 + a2^2", line=tu.line(tu.functions["norm_squared_d3"]))
+    # table getters
+    md = sp.Symbol("main_diag_index", integer=True)
+    db = sp.Function("db_relative_grid_address")
+    g1 = tu.functions.get("thm_get_relative_grid_address")
+    st = celem.State(ex, "thm_get_relative_grid_address", {"main_diag_index": md}, {}, 0)
+    loops = [x for x in cast.kids(cast.body(g1)) if x.get("kind") == "ForStmt"]
+    st.block(loops)
+    cells = {tuple(int(x) for x in p): v for p, _, v in st.cells.get("relative_grid_address", []) if all(x.is_Integer for x in p)}
+    ok1 = len(cells) == 288 and all(cells.get((i, j, k)) == db(md, i, j, k) for i in range(24) for j in range(4) for k in range(3))
+    rep.instance("R11j", CF, "thm_get_relative_grid_address", f"{len(cells)} cells: relative_grid_address[i][j][k] = db_relative_grid_address[main_diag_index][i][j][k]", ok1,
+                 "the table of the chosen main diagonal is not copied entry by entry (an index is swapped or a loop is shortened/overrun)", line=tu.line(g1))
+    calls = [cast.callee_name(c) for c in cast.walk(g1) if c.get("kind") == "CallExpr"]
+    rep.instance("R11j", CF, "thm_get_relative_grid_address", f"main_diag_index = {calls}(rec_lattice)", calls == ["get_main_diagonal"], "the main diagonal is not chosen by get_main_diagonal(rec_lattice)", line=tu.line(g1))
+    g4 = ex.function("thm_get_all_relative_grid_address")
+    cells4 = {tuple(int(x) for x in p): v for p, _, v in g4.cells.get("relative_grid_address", []) if all(x.is_Integer for x in p)}
+    ok4 = len(cells4) == 1152 and all(cells4.get((d, i, j, k)) == db(d, i, j, k) for d in range(4) for i in range(24) for j in range(4) for k in range(3))
+    rep.instance("R11j", CF, "thm_get_all_relative_grid_address", f"{len(cells4)} cells copied to the same position", ok4, "the four tables are not copied entry by entry", line=tu.line(tu.functions["thm_get_all_relative_grid_address"]))
+    # get_integration_weight: vertex copy and IJ * gn
+    giw = tu.functions["get_integration_weight"]
+    copies = [x for x in cast.walk(giw) if x.get("kind") == "BinaryOperator" and x.get("opcode") == "=" and cast.text(cast.kids(x)[0]).startswith("v[")]
+    ok_copy = len(copies) == 1 and cast.text(cast.kids(copies[0])[0]) == "v[j]" and cast.text(cast.kids(copies[0])[1]).replace(" ", "") == "tetrahedra_omegas[i][j]"
+    acc = [x for x in cast.walk(giw) if x.get("kind") == "CompoundAssignOperator" and cast.text(cast.kids(x)[0]) == "sum"]
+    prods = []
+    for x in acc:
+        rhs = cast.strip(cast.kids(x)[1])
+        ks = [cast.strip(y) for y in cast.kids(rhs)] if rhs.get("kind") == "BinaryOperator" and rhs.get("opcode") == "*" else []
+        prods.append(x.get("opcode") == "+=" and len(ks) == 2 and sorted(cast.text(cast.kids(y)[0]) for y in ks if y.get("kind") == "CallExpr") == ["IJ", "gn"])
+    rep.instance("R11j", CF, "get_integration_weight", f"v[j] = tetrahedra_omegas[i][j]; {len(acc)} cases add IJ(...) * gn(...)", ok_copy and len(acc) == 5 and all(prods),
+                 "the vertex frequencies of tetrahedron i are not copied in order, or a case does not add the product IJ * gn", line=tu.line(giw))
+
+
 def selftest():
     V = []
     b = lambda name, file, old, new, rule, expect="", **kw: V.append(dict(name=name, kind="break", file=file, old=old, new=new, rule=rule, expect=expect, **kw))
@@ -769,4 +816,7 @@ def selftest():
     b("THM_EPSILON missing for the static library", "CMakeLists.txt", "    target_compile_definitions(phonopy_libs PRIVATE THM_EPSILON=1e-10)\nelse", "else", "R11h", "phonopy_libs", nth=0)
     n("Python _n_1 factors reordered", PY, "        return self._f(1, 0) * self._f(2, 0) * self._f(3, 0)", "        return self._f(3, 0) * self._f(1, 0) * self._f(2, 0)")
     n("case split written as a chained comparison", PY, "            elif v[0] < omega and omega < v[1]:", "            elif v[0] < omega < v[1]:")
+    b("table copy swaps tetrahedron and vertex index", CF, "                relative_grid_address[i][j][k] =\n                    db_relative_grid_address[main_diag_index][i][j][k];", "                relative_grid_address[i][j][k] =\n                    db_relative_grid_address[main_diag_index][i][k][j];", "R11j", "thm_get_relative_grid_address")
+    b("weight case divides instead of multiplying", CF, "                    sum += IJ(2, ci, omega, v) * gn(2, omega, v);", "                    sum += IJ(2, ci, omega, v) / gn(2, omega, v);", "R11j", "get_integration_weight")
+    b("matrix-vector product sign", CF, "        c[i] = a[i][0] * b[0] + a[i][1] * b[1] + a[i][2] * b[2];", "        c[i] = a[i][0] * b[0] - a[i][1] * b[1] + a[i][2] * b[2];", "R11j", "multiply_matrix_vector_dl3")
     return V
